@@ -128,9 +128,9 @@ theorem wtA_struct (cfg : Cfg) (al : Bool) (fs : Fields) (hF : WtAIdleD cfg fs) 
   obtain ⟨sz, sa, offs, hlay, hw⟩ := hF ⟨hS, hB, hU, hP⟩ [] vs hvs LState.init
   obtain ⟨out, hwf⟩ := hw pos pos (allAlignDvd_of_sAlign cfg true fs hP pos hpos) (by intro o ho; cases ho; rfl)
   have hl : structLayout cfg true fs = .ok (sz, sa, offs) := hlay
-  refine ⟨_, ?_⟩
   rw [write_struct, hl]
   simp only [Except.bind, hwf, flushBits_empty]
+  exact ⟨_, rfl⟩
 
 mutual
 theorem wtA_ty (cfg : Cfg) : ∀ ty : Ty, WtATyD cfg ty
